@@ -12,6 +12,7 @@ import (
 	"testing"
 	"time"
 
+	"github.com/couchbase/sync_gateway/auth"
 	"github.com/couchbase/sync_gateway/base"
 	"github.com/couchbase/sync_gateway/channels"
 	"github.com/couchbase/sync_gateway/verifshim/vreport"
@@ -462,5 +463,194 @@ func TestVerifC08Client(t *testing.T) {
 	}
 	if r.Expired() {
 		r.Cap("time budget reached before all scenarios were explored")
+	}
+}
+
+// ---- (c) a late arrival while a limited back-fill of a newly granted channel is in progress
+// Documents 2,3,5,6 are in channel NEW, 4 (also NEW) is delayed and skipped; the client (channel ABC only, caught up at 1)
+// is then granted NEW at sequence T=8 and pulls the back-fill with a limit, so that it is handed positions of the form
+// low:triggered-by:seq; the delayed document arrives after some of those limited polls. The client must end up with all.
+
+type c08cCase struct {
+	Limit      int `json:"limit"`
+	LateAfter  int `json:"late_after"` // the delayed document arrives after this many limited polls of the back-fill
+	DelayedSeq int `json:"delayed_seq"`
+}
+
+func c08cRun(t *testing.T, r *vreport.Report, c c08cCase) {
+	cacheOpts := DefaultCacheOptions()
+	cacheOpts.CachePendingSeqMaxWait = 5 * time.Millisecond
+	cacheOpts.CachePendingSeqMaxNum = 50
+	cacheOpts.CacheSkippedSeqMaxWait = 10 * time.Minute
+	database, ctx := setupTestDBWithCacheOptions(t, cacheOpts)
+	defer database.Close(ctx)
+	// the allocator will hand out 8 next
+	if _, err := database.MetadataStore.Incr(ctx, database.MetadataKeys.SyncSeqKey(), 7, 7, 0); err != nil {
+		t.Fatalf("counter: %v", err)
+	}
+	a := database.Authenticator(ctx)
+	user, err := a.NewUser("naomi", "letmein", channels.BaseSetOf(t, "ABC"))
+	if err == nil {
+		err = a.Save(user)
+	}
+	if err != nil {
+		t.Fatalf("user: %v", err)
+	}
+	coll := GetSingleDatabaseCollection(t, database.DatabaseContext)
+	ucoll, ctx := GetSingleDatabaseCollectionWithUser(ctx, t, database)
+	ucoll.user, _ = a.GetUser("naomi")
+	wrapper := &c08bCache{ChannelCache: database.changeCache.channelCache}
+	w := &c08bWorld{t: t, db: database, ctx: ctx, coll: coll, ucoll: ucoll, cache: wrapper, got: map[uint64]int{}}
+	tctx, cancel := context.WithCancel(base.TestCtx(t))
+	defer cancel()
+	abandon := func(what string) {
+		r.Add("scenarios_abandoned_cache_did_not_settle", 1)
+		r.Cap("a back-fill scenario was abandoned: " + what)
+	}
+	WriteDirect(t, coll, []string{"ABC"}, 1)
+	if err := w.waitHigh(1); err != nil {
+		abandon("first document")
+		return
+	}
+	if _, err := w.poll("poll-0", false, tctx); err != nil {
+		r.Violate("C08/client/poll-failed", err.Error(), c)
+		return
+	}
+	for _, s := range []int{2, 3, 4, 5, 6} {
+		if s != c.DelayedSeq {
+			WriteDirect(t, coll, []string{"NEW"}, uint64(s))
+		}
+	}
+	WriteDirect(t, coll, []string{"ABC"}, 7)
+	if err := w.waitHigh(7); err != nil {
+		abandon("first wave")
+		return
+	}
+	// grant NEW
+	grant := &auth.PrincipalConfig{Name: base.Ptr("naomi")}
+	if base.IsDefaultCollection(coll.ScopeName, coll.Name) {
+		grant.ExplicitChannels = base.SetOf("ABC", "NEW")
+	} else {
+		grant.SetExplicitChannels(coll.ScopeName, coll.Name, "ABC", "NEW")
+	}
+	if _, _, err := database.UpdatePrincipal(ctx, grant, true, true); err != nil {
+		t.Fatalf("grant: %v", err)
+	}
+	gu, _ := a.GetUser("naomi")
+	if gu == nil || gu.Sequence() != 8 {
+		abandon(fmt.Sprintf("the grant did not get sequence 8 (got %v)", gu))
+		return
+	}
+	if err := w.waitHigh(8); err != nil {
+		abandon("grant")
+		return
+	}
+	ucoll.user = gu
+	pollLimited := func(label string) (int, error) {
+		opts := ChangesOptions{Since: w.since, ChangesCtx: tctx, Limit: c.Limit}
+		feed, err := w.ucoll.MultiChangesFeed(w.ctx, base.SetOf("*"), opts)
+		if err != nil {
+			return 0, err
+		}
+		n := 0
+		last := w.since
+		var seqs []string
+		for en := range feed {
+			if en == nil {
+				continue
+			}
+			if en.Err != nil {
+				return n, en.Err
+			}
+			last = en.Seq
+			if strings.HasPrefix(en.ID, "_user/") {
+				seqs = append(seqs, en.Seq.String()+"(user)")
+				n++
+				continue
+			}
+			w.got[en.Seq.Seq]++
+			seqs = append(seqs, en.Seq.String())
+			n++
+		}
+		tok, perr := ParsePlainSequenceID(last.String())
+		if perr != nil {
+			return n, fmt.Errorf("server handed out an unparsable position %q: %v", last.String(), perr)
+		}
+		w.log = append(w.log, fmt.Sprintf("%s since=%s limit=%d -> [%s] last_seq=%s", label, w.since.String(), c.Limit, strings.Join(seqs, " "), last.String()))
+		w.since = tok
+		return n, nil
+	}
+	lateDone := false
+	late := func() bool {
+		WriteDirect(t, coll, []string{"NEW"}, uint64(c.DelayedSeq))
+		if err := w.waitSkippedGone(uint64(c.DelayedSeq)); err != nil {
+			abandon("late arrival")
+			return false
+		}
+		lateDone = true
+		return true
+	}
+	empty := 0
+	for k := 0; k < 12 && empty < 2; k++ {
+		if k == c.LateAfter && !lateDone {
+			if !late() {
+				return
+			}
+		}
+		n, err := pollLimited(fmt.Sprintf("limited-poll-%d", k))
+		if err != nil {
+			r.Violate("C08/client/poll-failed", err.Error()+"; log: "+strings.Join(w.log, " | "), c)
+			return
+		}
+		if n == 0 && lateDone {
+			empty++
+		}
+		if n == 0 && !lateDone {
+			if !late() {
+				return
+			}
+		}
+	}
+	var missing []string
+	for s := 1; s <= 7; s++ {
+		if w.got[uint64(s)] == 0 {
+			missing = append(missing, fmt.Sprint(s))
+		}
+	}
+	if len(missing) > 0 {
+		r.Violate("C08/client/missed-sequences/limited-backfill-of-a-granted-channel", fmt.Sprintf("a client pulling the back-fill of a newly granted channel with limit %d, always resuming from the position it was handed, was never sent sequence(s) %s (sequence %d arrived late after %d polls); client log: %s", c.Limit, strings.Join(missing, ","), c.DelayedSeq, c.LateAfter, strings.Join(w.log, " | ")), c)
+	} else {
+		r.Distinct("client_outcomes", fmt.Sprintf("backfill %+v|%d responses", c, len(w.log)))
+	}
+}
+
+func TestVerifC08Backfill(t *testing.T) {
+	r := vreport.Begin("C08")
+	defer r.Finish(t)
+	r.Rule("(c) a client caught up at sequence 1 (channel ABC) is granted channel NEW at sequence 8 while NEW holds documents 2..6 of which one (2..5) is delayed and skipped; it pulls the back-fill with limit 1..3, always resuming from the low:triggered-by:sequence position it was handed; the delayed document arrives after 0..4 of those polls; the client must end up having been sent 1..7; non-trivial = distinct (limit, delayed sequence, arrival point)")
+	r.Assume("as part b")
+	var rc c08cCase
+	if r.Replaying(&rc) {
+		c08cRun(t, r, rc)
+		return
+	}
+	idx := 0
+	for _, limit := range []int{1, 2, 3} {
+		for _, d := range []int{2, 3, 4, 5} {
+			for lateAfter := 0; lateAfter <= 4; lateAfter++ {
+				idx++
+				if !r.Mine(idx) || r.Expired() {
+					continue
+				}
+				c := c08cCase{Limit: limit, LateAfter: lateAfter, DelayedSeq: d}
+				c08cRun(t, r, c)
+				r.Add("evaluations", 1)
+				r.Add("backfill_scenarios", 1)
+				r.Add("distinct_nontrivial", 1)
+				if idx%7 == 0 || idx < 4 {
+					r.Sample(c)
+				}
+			}
+		}
 	}
 }
